@@ -10,6 +10,7 @@ use zipora::containers::{UintVecMin0, ZipIntVec};
 
 #[path = "c09_sorted.rs"] mod sorted;
 #[path = "c09_intvec.rs"] mod intvec;
+#[path = "c09_hist.rs"] mod hist;
 
 const HEADER: &str = r#"From ZV.Common Require Import Base Run.
 From ZV.C09 Require Import Cases.
@@ -43,55 +44,131 @@ fn le_number(data: &[u8]) -> String {
     digits.iter().rev().map(|d| (b'0' + d) as char).collect()
 }
 
-/// One history on a single UintVecMin0; returns (ops as coq, observations as coq, oracle failure).
+/// get / set / push_back use unaligned 8-byte loads and stores at byte bits * idx / 8: the allocation has to carry the one of the last
+/// field (the checked static reader says whether it does).  Without it the next read is undefined behaviour, not a value.
+pub fn min0_carries_last_load(v: &UintVecMin0) -> bool {
+    v.size() == 0 || v.uintbits() > 58 || UintVecMin0::fast_get(v.data(), v.uintbits(), v.uintmask(), v.size() - 1).is_ok()
+}
+
+/// One history on a single UintVecMin0.  Operations 0..=7 are the ones the Coq model knows (new, set, get, push_back, resize,
+/// clear, build_from_usize, dump); 8.. are judged by the shadow only (get2, back, shrink_to_fit, resize_with_uintbits,
+/// resize_with_wire_max_val, the static fast_get, build_from_u32 / build_from_i32 as the start of a history, Default,
+/// compute_mem_size(_by_max_val)): a history that contains one of them is not sent to the model.
+/// The shadow is a Vec<Option<u64>>: None = the property does not say what the element holds (grown by `resize`, or
+/// reinterpreted by a change of the field width).
 fn min0_history(cx: &mut Ctx, ops: &[(u32, Vec<u64>)], force: bool) {
     let cell = "UintVecMin0";
     let key = format!("{:?}", ops);
     cx.sum.eval(cell, &key, ops.len() >= 3);
     let cj = json!({"cell": "min0", "ops": ops.iter().map(|(o, a)| json!([o, a.iter().map(|x| x.to_string()).collect::<Vec<_>>()])).collect::<Vec<_>>()});
     let mut v = UintVecMin0::new_empty();
-    let mut shadow: Vec<u64> = vec![];       // what a Vec would hold
-    let mut shadow_valid = true;              // false once an op's effect on a Vec is not defined (resize growth = zeros is defined)
+    let mut shadow: Vec<Option<u64>> = vec![];
     let mut obs: Vec<String> = vec![];
     let mut wide = false;
+    let mut unmodelled = false;
+    let mut cap: u64 = 0; // the largest value the vector was told it has to hold (new / build_from / push_back / resize_with_*)
     for (op, a) in ops {
         let a0 = a.get(0).copied().unwrap_or(0) as usize;
         let a1 = a.get(1).copied().unwrap_or(0) as usize;
+        if *op >= 8 { unmodelled = true; cx.sum.dist(&format!("min0_op_{}", op)); }
+        let n = shadow.len();
+        // Some(true): the operation has to be refused (the API returns plain values, so the refusal is the documented panic)
+        let mut must_refuse: Option<bool> = None;
+        let mut bad: Option<String> = None;
+        let known = |s: &Vec<Option<u64>>, i: usize, x: usize| -> bool { match s.get(i) { Some(Some(w)) => *w == x as u64, _ => true } };
         let r: Result<String, String> = match op {
-            0 => guarded(|| { let nv = UintVecMin0::new(a0, a1); nv }).map(|nv| { v = nv; shadow = vec![0; a0]; shadow_valid = true; "[0]%Z".to_string() }),
-            1 => { let mut v2 = v.clone(); guarded(move || { v2.set(a0, a1); v2 }).map(|nv| { v = nv; if a0 < shadow.len() { shadow[a0] = a1 as u64; } "[0]%Z".to_string() }) }
+            0 => { must_refuse = Some(false); guarded(|| { let nv = UintVecMin0::new(a0, a1); nv }).map(|nv| { v = nv; shadow = vec![Some(0); a0]; cap = a1 as u64; "[0]%Z".to_string() }) }
+            1 => { // a value the vector was sized for, at an index below the size, has to be stored; beyond the field mask it is refused
+                   must_refuse = if a0 < n && (a1 as u64) <= cap { Some(false) } else { None };
+                   let mut v2 = v.clone(); guarded(move || { v2.set(a0, a1); v2 }).map(|nv| { v = nv; if a0 < shadow.len() { shadow[a0] = Some(a1 as u64); } "[0]%Z".to_string() }) }
             2 => { let v2 = v.clone(); let r = guarded(move || v2.get(a0));
-                   if let Ok(x) = &r { if shadow_valid && a0 < shadow.len() && *x as u64 != shadow[a0] {
-                       cx.sum.fail(cell, None, cj.clone(), &format!("get({}) = {} but a Vec holds {}", a0, x, shadow[a0])); } }
+                   must_refuse = Some(a0 >= n);
+                   if let Ok(x) = &r { if !known(&shadow, a0, *x) { bad = Some(format!("get({}) = {} but a Vec holds {:?}", a0, x, shadow[a0])); } }
                    r.map(|x| format!("[0; {}]%Z", x)) }
-            3 => { let mut v2 = v.clone(); guarded(move || { v2.push_back(a0); v2 }).map(|nv| { v = nv; shadow.push(a0 as u64); "[0]%Z".to_string() }) }
-            4 => { let mut v2 = v.clone(); guarded(move || { v2.resize(a0); v2 }).map(|nv| { v = nv;
-                       if a0 > shadow.len() { shadow_valid = false; } // bits beyond the old size are whatever memory held
-                       shadow.resize(a0, 0); "[0]%Z".to_string() }) }
-            5 => { v.clear(); shadow.clear(); shadow_valid = true; Ok("[0]%Z".to_string()) }
-            6 => { let src: Vec<usize> = a.iter().map(|&x| x as usize).collect();
-                   guarded(|| UintVecMin0::build_from_usize(&src)).map(|(nv, mn)| { v = nv; shadow = src.iter().map(|&x| (x - mn) as u64).collect(); shadow_valid = true; format!("[0; {}]%Z", mn) }) }
-            _ => Ok(format!("[{}; {}; {}; {}]%Z", v.size(), v.uintbits(), v.data().len(), le_number(v.data()))),
+            3 => { must_refuse = Some(false); let mut v2 = v.clone(); guarded(move || { v2.push_back(a0); v2 }).map(|nv| { v = nv; shadow.push(Some(a0 as u64)); cap = cap.max(a0 as u64); "[0]%Z".to_string() }) }
+            4 => { must_refuse = Some(false); let mut v2 = v.clone(); guarded(move || { v2.resize(a0); v2 }).map(|nv| { v = nv;
+                       shadow.resize(a0, None); // bits beyond the old size are whatever memory held
+                       "[0]%Z".to_string() }) }
+            5 => { v.clear(); shadow.clear(); cap = 0; Ok("[0]%Z".to_string()) }
+            6 => { let src: Vec<usize> = a.iter().map(|&x| x as usize).collect(); must_refuse = Some(false);
+                   guarded(|| UintVecMin0::build_from_usize(&src)).map(|(nv, mn)| { v = nv; shadow = src.iter().map(|&x| Some((x - mn) as u64)).collect(); cap = shadow.iter().map(|x| x.unwrap()).max().unwrap_or(0); format!("[0; {}]%Z", mn) }) }
+            7 => Ok(format!("[{}; {}; {}; {}]%Z", v.size(), v.uintbits(), v.data().len(), le_number(v.data()))),
+            8 => { let v2 = v.clone(); let r = guarded(move || v2.get2(a0));
+                   must_refuse = Some(a0.checked_add(1).map_or(true, |j| j >= n));
+                   if let Ok([x, y]) = &r { if !known(&shadow, a0, *x) || !known(&shadow, a0 + 1, *y) { bad = Some(format!("get2({}) = [{}, {}] but a Vec holds {:?}, {:?}", a0, x, y, shadow.get(a0), shadow.get(a0 + 1))); } }
+                   r.map(|_| String::new()) }
+            9 => { let v2 = v.clone(); let r = guarded(move || v2.back());
+                   must_refuse = Some(n == 0);
+                   if let Ok(x) = &r { if n > 0 && !known(&shadow, n - 1, *x) { bad = Some(format!("back() = {} but a Vec holds {:?}", x, shadow[n - 1])); } }
+                   r.map(|_| String::new()) }
+            10 => { must_refuse = Some(false); let mut v2 = v.clone(); guarded(move || { v2.shrink_to_fit(); v2 }).map(|nv| { v = nv; String::new() }) }
+            11 | 12 => { // second argument u64::MAX = "what the vector has now" (the same width / the same maximum)
+                   let cur = a1 == usize::MAX;
+                   let arg = if !cur { a1 } else if *op == 11 { v.uintbits() } else { v.uintmask() };
+                   let bits = if *op == 11 { arg } else if arg == 0 { 0 } else { 64 - (arg as u64).leading_zeros() as usize };
+                   let same = bits == v.uintbits(); let fresh = v.mem_size() == 0;
+                   must_refuse = Some(bits > 64);
+                   let mut v2 = v.clone(); let o = *op;
+                   guarded(move || { if o == 11 { v2.resize_with_uintbits(a0, arg) } else { v2.resize_with_wire_max_val(a0, arg) }; v2 }).map(|nv| { v = nv;
+                       if fresh { shadow = vec![Some(0); a0]; }                 // nothing was allocated: everything is zero, as after new()
+                       else if same { shadow.resize(a0, None); }               // same field width: the common prefix keeps its values
+                       else { shadow = vec![None; a0]; }                       // another width reinterprets the bits: not constrained
+                       cap = if *op == 12 { arg as u64 } else if bits >= 64 { u64::MAX } else { (1u64 << bits) - 1 };
+                       String::new() }) }
+            13 => { // the static reader over the raw bytes, as blob stores use it
+                   if v.uintbits() > 58 { Ok(String::new()) } else {
+                   let v2 = v.clone(); let r = guarded(move || UintVecMin0::fast_get(v2.data(), v2.uintbits(), v2.uintmask(), a0).ok());
+                   let beyond = (a0 as u128 * v.uintbits() as u128) / 8 + 8 > v.data().len() as u128; // the load would leave the bytes handed in
+                   match &r { Ok(Some(x)) => { if a0 < n && !known(&shadow, a0, *x) { bad = Some(format!("fast_get({}) = {} but a Vec holds {:?}", a0, x, shadow[a0])); }
+                                               if a0 >= n && beyond { bad = Some(format!("fast_get({}) over {} bytes of {}-bit fields returned {} instead of the out-of-bounds error", a0, v.data().len(), v.uintbits(), x)); } }
+                              Ok(None) => { if a0 < n { bad = Some(format!("fast_get({}) refuses an index below size {}", a0, n)); } }
+                              Err(_) => {} }
+                   must_refuse = Some(false);
+                   r.map(|_| String::new()) } }
+            14 => { let src: Vec<u32> = a.iter().map(|&x| x as u32).collect(); must_refuse = Some(false);
+                   guarded(|| UintVecMin0::build_from_u32(&src)).map(|(nv, mn)| { v = nv; shadow = src.iter().map(|&x| Some((x - mn) as u64)).collect(); cap = shadow.iter().map(|x| x.unwrap()).max().unwrap_or(0); String::new() }) }
+            15 => { let src: Vec<i32> = a.iter().map(|&x| x as u32 as i32).collect(); must_refuse = Some(false);
+                   guarded(|| UintVecMin0::build_from_i32(&src)).map(|(nv, mn)| { v = nv; shadow = src.iter().map(|&x| Some((x as i64 - mn as i64) as u64)).collect(); cap = shadow.iter().map(|x| x.unwrap()).max().unwrap_or(0); String::new() }) }
+            16 => { v = UintVecMin0::default(); shadow.clear(); cap = 0; Ok(String::new()) }
+            _ => { // housekeeping accessors between the operations; the allocation must still carry the 8-byte load of the last field
+                   let (b, sz) = (v.uintbits(), v.size());
+                   let _ = (v.mem_size(), v.uintmask(), UintVecMin0::compute_mem_size_by_max_val(v.uintmask(), sz));
+                   // the width computed for a value holds the value (new / build_from / push_back size their fields with it)
+                   { let w = UintVecMin0::compute_uintbits(cap as usize); if w < 64 && (cap >> w) != 0 { bad = Some(format!("compute_uintbits({}) = {} does not hold the value", cap, w)); } }
+                   if sz > 0 && b <= 58 { match UintVecMin0::fast_get(v.data(), b, v.uintmask(), sz - 1) {
+                       Ok(x) => if !known(&shadow, sz - 1, x) { bad = Some(format!("fast_get(last) = {} but a Vec holds {:?}", x, shadow[sz - 1])); },
+                       Err(_) => bad = Some(format!("the allocation of {} bytes does not carry an 8-byte load of the last of {} fields of {} bits", v.mem_size(), sz, b)) } }
+                   Ok(String::new()) }
         };
         match r {
-            Ok(s) => obs.push(s),
+            Ok(s) => { if *op < 8 { obs.push(s); }
+                       if must_refuse == Some(true) && bad.is_none() { bad = Some(format!("op {} {:?} on {} elements was not refused", op, a, n)); } }
             Err(msg) => {
-                obs.push("[(-1)]%Z".to_string());
-                if v.uintbits() > 58 || a.iter().any(|&x| x >= (1u64 << 58)) { wide = true; }
+                if *op < 8 { obs.push("[(-1)]%Z".to_string()); }
+                // the recorded finding is about field widths above 58 bits: the arguments that carry a value or a width, not the indices
+                let wide_arg = match op { 0 | 1 => a1 as u64 >= (1u64 << 58), 3 => a0 as u64 >= (1u64 << 58), 11 => a1 != usize::MAX && a1 > 58, 12 => a1 != usize::MAX && a1 as u64 >= (1u64 << 58),
+                    6 | 14 => a.iter().max().copied().unwrap_or(0) - a.iter().min().copied().unwrap_or(0) >= (1u64 << 58), _ => false };
+                if v.uintbits() > 58 || wide_arg { wide = true; }
                 // a panic is a property violation unless it is the documented refusal of an out-of-range index/value
-                let refusal = msg.contains("out of bounds") || msg.contains("exceeds max");
+                let refusal = match must_refuse { Some(t) => t, None => msg.contains("out of bounds") || msg.contains("exceeds max") };
                 if !refusal {
                     let class = if wide || msg.contains("58") || msg.contains("shift left") { Some("min0_width_above_58") } else { None };
                     cx.sum.fail(cell, class, cj.clone(), &format!("op {} {:?} panicked: {}", op, a, msg));
                 }
             }
         }
+        if let Some(d) = bad { let class = if v.uintbits() > 58 { Some("min0_width_above_58") } else { None }; cx.sum.fail(cell, class, cj.clone(), &d); }
         if v.size() != shadow.len() {
             cx.sum.fail(cell, None, cj.clone(), &format!("size {} but a Vec holds {}", v.size(), shadow.len()));
         }
+        if v.is_empty() != shadow.is_empty() { cx.sum.fail(cell, None, cj.clone(), "is_empty wrong"); }
+        if !min0_carries_last_load(&v) {
+            cx.sum.fail(cell, None, cj.clone(), &format!("after op {} {:?}: the allocation of {} bytes does not carry the 8-byte load of the last of {} fields of {} bits", op, a, v.mem_size(), v.size(), v.uintbits()));
+            return; // reading on would be undefined behaviour
+        }
     }
-    // model comparison is meaningful only where the model is defined (bits <= 58 paths)
-    if !wide && (force || (cx.shards.len() < cx.budget && cx.n_min0_coq < cx.cap_min0_coq)) {
+    // model comparison is meaningful only where the model is defined (bits <= 58 paths, modelled operations)
+    if !wide && !unmodelled && (force || (cx.shards.len() < cx.budget && cx.n_min0_coq < cx.cap_min0_coq)) {
         cx.n_min0_coq += 1;
         let ops_coq: Vec<String> = ops.iter().map(|(o, a)| format!("({}, {})", o, coq_n_list(a.iter().map(|&x| x as u128)))).collect();
         let term = format!("CMin0 [{}] [{}]", ops_coq.join("; "), obs.join("; "));
@@ -99,36 +176,60 @@ fn min0_history(cx: &mut Ctx, ops: &[(u32, Vec<u64>)], force: bool) {
     }
 }
 
-fn gen_history(r: &mut Rng) -> Vec<(u32, Vec<u64>)> {
+/// `ext` = also the operations the model does not know (secondary entry points), every field width 0..=58
+fn gen_history(r: &mut Rng, ext: bool) -> Vec<(u32, Vec<u64>)> {
     let mut ops: Vec<(u32, Vec<u64>)> = vec![];
-    let width = *r.pick(&[0u32, 1, 3, 7, 8, 9, 13, 31, 32, 33, 57, 58]);
+    let width = if ext && r.chance(2, 3) { r.below(59) as u32 } else { *r.pick(&[0u32, 1, 3, 7, 8, 9, 13, 31, 32, 33, 57, 58]) };
     let maxv: u64 = if width == 0 { 0 } else { (1u64 << width) - 1 };
     let mut size: u64;
-    if r.chance(1, 3) {
-        let n = r.range(1, 70);
-        let base = r.below(1000);
-        let src: Vec<u64> = (0..n).map(|_| base + if maxv == 0 { 0 } else { r.below(maxv.min(u64::MAX - 1000) ) }).collect();
-        ops.push((6, src));
-        size = n;
-    } else if r.chance(1, 2) {
-        size = r.below(70);
-        ops.push((0, vec![size, maxv]));
-    } else {
-        size = 0;
+    let start = if ext { r.below(9) } else { r.below(6) };
+    match start {
+        0 | 1 => {
+            let n = r.range(1, 70);
+            let base = r.below(1000);
+            let src: Vec<u64> = (0..n).map(|_| base + if maxv == 0 { 0 } else { r.below(maxv.min(u64::MAX - 1000) ) }).collect();
+            ops.push((6, src));
+            size = n;
+        }
+        2 | 3 => { size = r.below(70); ops.push((0, vec![size, maxv])); }
+        4 | 5 => { size = 0; }
+        6 => { // typed builders as the start of a history: what they leave behind is continued by push_back / set / resize
+            let n = r.range(1, 70); let m32 = maxv.min(u32::MAX as u64);
+            let signed = r.chance(1, 2);
+            let base = if signed { *r.pick(&[i32::MIN as i64, -5, 0, i32::MAX as i64 - m32 as i64]) } else { *r.pick(&[0i64, 1000, (u32::MAX as u64 - m32) as i64]) };
+            let mut src: Vec<u64> = (0..n).map(|_| { let x = base + if m32 == 0 { 0 } else { r.below(m32) + r.below(2) } as i64; if signed { (x.max(i32::MIN as i64).min(i32::MAX as i64) as i32) as u32 as u64 } else { x.max(0).min(u32::MAX as i64) as u64 } }).collect();
+            if n >= 2 && r.chance(1, 2) { src[0] = if signed { (base as i32) as u32 as u64 } else { base as u64 }; }
+            ops.push((if signed { 15 } else { 14 }, src)); size = n; }
+        7 => { ops.push((16, vec![])); size = r.below(40); if r.chance(1, 2) { ops.push((11, vec![size, width as u64])); } else { ops.push((12, vec![size, maxv])); } }
+        _ => { size = r.below(70); ops.push((0, vec![size, maxv])); for i in 0..size { let x = if maxv == 0 { 0 } else { r.below(maxv) + r.below(2) }; ops.push((1, vec![i, x])); } }
     }
     let nops = r.range(2, 14);
     for _ in 0..nops {
         let val = |r: &mut Rng| if maxv == 0 { r.below(3) } else if r.chance(1, 4) { maxv } else if r.chance(1, 8) { maxv.saturating_add(1) } else { r.below(maxv) + r.below(2) };
-        match r.below(10) {
-            0..=2 => { let i = if size > 0 && r.chance(9, 10) { r.below(size) } else { size + r.below(2) }; ops.push((1, vec![i, val(r)])); }
+        let idx = |r: &mut Rng, size: u64| if size > 0 && r.chance(9, 10) { r.below(size) } else { size + r.below(2) };
+        match r.below(if ext { 18 } else { 10 }) {
+            0..=2 => { let i = idx(r, size); ops.push((1, vec![i, val(r)])); }
             3..=4 => { let i = if size > 0 && r.chance(9, 10) { r.below(size) } else { size }; ops.push((2, vec![i])); }
             5..=7 => { ops.push((3, vec![val(r)])); size += 1; }
             8 => { let n = if r.chance(1, 2) { r.below(size + 1) } else { size + r.below(20) }; ops.push((4, vec![n])); size = n; }
-            _ => { if r.chance(1, 4) { ops.push((5, vec![])); size = 0; } else { ops.push((7, vec![])); } }
+            9 => { if r.chance(1, 4) { ops.push((5, vec![])); size = 0; } else { ops.push((7, vec![])); } }
+            10 | 11 => { let i = if size > 1 && r.chance(9, 10) { r.below(size - 1) } else if r.chance(1, 8) { u64::MAX } else { size.saturating_sub(1) + r.below(2) }; ops.push((8, vec![i])); }
+            12 => ops.push((9, vec![])),
+            13 | 14 => { ops.push((10, vec![])); if r.chance(1, 2) { ops.push((3, vec![val(r)])); size += 1; } }
+            15 => { let i = if r.chance(1, 6) { *r.pick(&[1u64 << 61, (1u64 << 61) + 1, 1u64 << 58, u64::MAX, u64::MAX / 8 + 1, size + 64]) } else { idx(r, size) }; ops.push((13, vec![i])); }
+            16 => { // change of size at the same width (keeps the prefix), rarely another width (then everything is rewritten)
+                    let n = if r.chance(1, 2) { r.below(size + 1) } else { size + r.below(20) };
+                    if r.chance(3, 4) { ops.push((if r.chance(1, 2) { 11 } else { 12 }, vec![n, u64::MAX])); size = n; }
+                    else { let w2 = r.below(59); ops.push((11, vec![n, w2])); let m2 = if w2 == 0 { 0 } else { (1u64 << w2) - 1 };
+                           for i in 0..n { ops.push((1, vec![i, if m2 == 0 { 0 } else { r.below(m2) + r.below(2) }])); }
+                           // the generator's idea of the width is out of date from here on: finish the history
+                           size = n; break; } }
+            _ => ops.push((17, vec![])),
         }
     }
     // read everything back at the end and dump raw memory
     for i in 0..size.min(80) { ops.push((2, vec![i])); }
+    if ext { for i in 0..size.min(80) { ops.push((if i % 2 == 0 { 8 } else { 13 }, vec![i])); } ops.push((9, vec![])); ops.push((17, vec![])); }
     ops.push((7, vec![]));
     ops
 }
@@ -185,18 +286,24 @@ fn uintvector_mixed_case(cx: &mut Ctx, vals: &[u32], split: usize) {
     }
 }
 
-fn uintvector_case(cx: &mut Ctx, vals: &[u32], by_push: bool, force_coq: bool, rng: &mut Rng) {
+/// `start` (push only): 0 UintVector::new(), 1 with_capacity(n / 2), 2 Default::default(), 3 with_capacity(0) - the model knows new() only,
+/// and all of them have to behave like it
+fn uintvector_case(cx: &mut Ctx, vals: &[u32], by_push: bool, force_coq: bool, rng: &mut Rng, start: u32) {
     let cell = if by_push { "UintVector/push" } else { "UintVector/build_from" };
     cx.sum.eval(cell, &format!("{} {:?}", cell, vals), vals.len() >= 2);
     cx.sum.cell_status(cell, if cx.model_uintvec { "M+S" } else { "S-only" });
-    let cj = json!({"cell": "uintvector", "push": by_push, "values": vals});
+    let cj = json!({"cell": "uintvector", "push": by_push, "start": start, "values": vals});
     let n = vals.len();
+    if by_push { cx.sum.dist(&format!("uintvector_start_{}", start % 4)); }
     let r = guarded(|| {
         let mut mid: Vec<(usize, usize, Option<u32>, Option<u32>)> = vec![];
         let uv = if by_push {
-            let mut u = UintVector::new();
+            let mut u = match start % 4 { 0 => UintVector::new(), 1 => UintVector::with_capacity(n / 2), 2 => UintVector::default(), _ => UintVector::with_capacity(0) };
+            if !u.is_empty() || u.get(0).is_some() { return Err("a new vector is not empty".to_string()); }
             for (k, &v) in vals.iter().enumerate() {
                 u.push(v).map_err(|e| format!("{:?}", e))?;
+                // the statistics calls between the pushes must not disturb anything
+                if k % 5 == 0 { let _ = (u.compression_ratio(), u.memory_usage()); }
                 // incremental construction: the prefix must be readable after every push (sampled)
                 if k % 7 == 0 || (k + 1) % 64 <= 1 || k + 1 == n { let j = (k * 5 + 3) % (k + 1); mid.push((k, u.len(), u.get(j), u.get(k + 1))); }
             }
@@ -341,13 +448,18 @@ fn run_one(cx: &mut Ctx, c: &Value, rng: &mut Rng) {
             let ops: Vec<(u32, Vec<u64>)> = c["ops"].as_array().unwrap().iter().map(|o| (o[0].as_u64().unwrap() as u32, parse_u64s(&o[1]))).collect();
             min0_history(cx, &ops, true);
         }
+        Some("ziphist") => {
+            let ops: Vec<(u32, Vec<u64>)> = c["ops"].as_array().unwrap().iter().map(|o| (o[0].as_u64().unwrap() as u32, parse_u64s(&o[1]))).collect();
+            hist::zip_history(cx, &ops);
+        }
+        Some("big") => hist::big_case(cx, c),
         Some("sorted") => {
             let cfg = if let Some(a) = c["cfg"].as_array() { sorted::SCfg { log2: a[0].as_u64().unwrap_or(6) as u8, ow: a[1].as_u64().unwrap_or(16) as u8, sw: a[2].as_u64().unwrap_or(32) as u8, simd: a[3].as_u64().unwrap_or(1) != 0 } }
                       else { sorted::preset(c["preset"].as_u64().unwrap_or(0) as usize) };
-            sorted::sorted_case(cx, cfg, &parse_u64s(&c["values"]), true)
+            sorted::sorted_case_via(cx, cfg, &parse_u64s(&c["values"]), true, c["via"].as_u64().unwrap_or(0) as u32)
         }
         Some("uintvector_mixed") => uintvector_mixed_case(cx, &parse_u64s(&c["values"]).iter().map(|&x| x as u32).collect::<Vec<_>>(), c["split"].as_u64().unwrap_or(0) as usize),
-        Some("uintvector") => uintvector_case(cx, &parse_u64s(&c["values"]).iter().map(|&x| x as u32).collect::<Vec<_>>(), c["push"].as_bool().unwrap_or(false), true, rng),
+        Some("uintvector") => uintvector_case(cx, &parse_u64s(&c["values"]).iter().map(|&x| x as u32).collect::<Vec<_>>(), c["push"].as_bool().unwrap_or(false), true, rng, c["start"].as_u64().unwrap_or(0) as u32),
         Some("zip") => { let mode = c["mode"].as_u64().map(|m| m as u32).unwrap_or(if c["push"].as_bool().unwrap_or(false) { 1 } else { 0 }); zip_case(cx, &parse_u64s(&c["values"]), mode, true) }
         Some("min0typed") => { let v: Vec<i64> = c["values"].as_array().unwrap().iter().map(|x| x.as_str().unwrap_or("0").parse::<i64>().unwrap_or(0)).collect(); min0_typed_case(cx, &v, c["signed"].as_bool().unwrap_or(false), true) }
         Some("intvec") => {
@@ -374,7 +486,7 @@ pub fn run(args: &Args) {
     if std::env::var("C09_LOUD").is_ok() { std::panic::set_hook(Box::new(|i| { if let Some(l) = i.location() { if l.file().contains("harness") || l.file().contains("c09") { eprintln!("harness panic at {}:{}", l.file(), l.line()); } } })); }
     let th = args.thorough;
     let mut cx = Ctx {
-        sum: Summary::new("C09", "UintVecMin0: generated operation histories (new/set/get/push_back/resize/clear/build_from/dump) at widths 0,1,3,7,8,9,13,31,32,33,57,58 with values at mask and mask+1, every element read back and raw memory dumped, compared with the Coq model and with a shadow Vec; IntVec<8 types> x 3 constructors: all sequences of length <=4 over {0,1,MAX-1,MAX,MIN}, then 13 shapes (constant, arithmetic, sorted small/big steps, sorted with a jump near the end, one inversion, small range, full range, few huge outliers, type extremes, per-block bases, around zero, shifted random) at lengths 0..257 around 4/8/32/64/128/256 and (fewer) around 1000/1024/2048/10000/16384, read back at every index (sampled above 400) and five indices past the end; SortedUintVec: three presets and custom (block 16..256, offset 8..32, sample 16..64 bits, simd on/off, some invalid) x sorted sequences whose in-block deltas sit at 2^w-1, 2^w, 2^w+1 and whose bases sit at the sample-width limit and at u64::MAX, get/get2/get_block at every index and past the end; IntVec additionally: one vector of more than 10000 elements whose short last block carries the widest offsets (full analysis, block layout) and 59..63-bit fields whose last field ends in the last byte of the buffer (n*w = 121..127 mod 128); ZipIntVec: build_from_usize/u32, push with fixed and growing width, values up to usize::MAX; UintVector build_from and push (prefix re-read during construction) incl. runs and >1000 elements; UintVecMin0::build_from_i32/u32 incl. i32::MIN with i32::MAX; non-trivial = history of >=3 ops or sequence of >=2 elements"),
+        sum: Summary::new("C09", "UintVecMin0: generated operation histories (new/set/get/push_back/resize/clear/build_from/dump) at widths 0,1,3,7,8,9,13,31,32,33,57,58 with values at mask and mask+1, every element read back and raw memory dumped, compared with the Coq model and with a shadow Vec; IntVec<8 types> x 3 constructors: all sequences of length <=4 over {0,1,MAX-1,MAX,MIN}, then 13 shapes (constant, arithmetic, sorted small/big steps, sorted with a jump near the end, one inversion, small range, full range, few huge outliers, type extremes, per-block bases, around zero, shifted random) at lengths 0..257 around 4/8/32/64/128/256 and (fewer) around 1000/1024/2048/10000/16384, read back at every index (sampled above 400) and five indices past the end; SortedUintVec: three presets and custom (block 16..256, offset 8..32, sample 16..64 bits, simd on/off, some invalid) x sorted sequences whose in-block deltas sit at 2^w-1, 2^w, 2^w+1 and whose bases sit at the sample-width limit and at u64::MAX, get/get2/get_block at every index and past the end; IntVec additionally: one vector of more than 10000 elements whose short last block carries the widest offsets (full analysis, block layout) and 59..63-bit fields whose last field ends in the last byte of the buffer (n*w = 121..127 mod 128); ZipIntVec: build_from_usize/u32, push with fixed and growing width, values up to usize::MAX; UintVector build_from and push (prefix re-read during construction) incl. runs and >1000 elements; UintVecMin0::build_from_i32/u32 incl. i32::MIN with i32::MAX; breadth: half of the UintVecMin0 histories also use get2, back, shrink_to_fit, resize_with_uintbits / resize_with_wire_max_val, the static fast_get (incl. indices at 2^61), typed builders and Default as starts, every width 0..58, with the allocation checked to carry the last 8-byte load after every operation; ZipIntVec histories over all 17 entry points with a swap partner; SortedUintVec fed by push / extend / both / new / default / with_pool / a builder reused after refusals, re-read through to_bytes + from_bytes and through larger and shorter block buffers; UintVector started by with_capacity / Default and a bulk-built prefix of every layout continued by pushes that change the layout; IntVec read through a clone, unique minimum / maximum at the ends of the 8- and 16-element scan chunks and around the 128-element switch, sizes thr-1, thr, thr+1 of the full analysis per element size (17408 one-byte elements, 10001 otherwise); every container at 65535, 65536, 65537 and 2^20+1 elements described by (container, kind, n, seed); non-trivial = history of >=3 ops or sequence of >=2 elements"),
         shards: CoqShards::new(HEADER, 100),
         budget: if th { 12000 } else { 1500 },
         model_sorted: MODEL_SORTED, n_sorted_coq: 0, cap_sorted_coq: if th { 4000 } else { 450 },
@@ -413,12 +525,24 @@ pub fn run(args: &Args) {
     intvec::enum_small::<u16>(&mut cx, &mut rng); intvec::enum_small::<i16>(&mut cx, &mut rng);
     intvec::enum_small::<u32>(&mut cx, &mut rng); intvec::enum_small::<i32>(&mut cx, &mut rng);
     intvec::enum_small::<u64>(&mut cx, &mut rng); intvec::enum_small::<i64>(&mut cx, &mut rng);
+    macro_rules! each_type { ($f:ident) => { intvec::$f::<u8>(&mut cx, &mut rng); intvec::$f::<i8>(&mut cx, &mut rng); intvec::$f::<u16>(&mut cx, &mut rng); intvec::$f::<i16>(&mut cx, &mut rng);
+        intvec::$f::<u32>(&mut cx, &mut rng); intvec::$f::<i32>(&mut cx, &mut rng); intvec::$f::<u64>(&mut cx, &mut rng); intvec::$f::<i64>(&mut cx, &mut rng); }; }
+    each_type!(minmax_position_family);
+    each_type!(analysis_threshold_family);
     // the full analysis (more than 10000 elements), replayed in the model
     match rng.below(4) { 0 => intvec::full_analysis_case::<u16>(&mut cx, &mut rng), 1 => intvec::full_analysis_case::<u32>(&mut cx, &mut rng),
                          2 => intvec::full_analysis_case::<i32>(&mut cx, &mut rng), _ => intvec::full_analysis_case::<u64>(&mut cx, &mut rng) }
-    let nh = if th { 30000 } else { 2000 };
+    // UintVector: a bulk-built prefix of each layout (raw: fewer than 4 / incompressible; min-max; run length), continued by pushes across the
+    // 64-value recompression marks whose values make the recompression change the layout
+    for pk in 0..4u32 { for &split in &[1usize, 3, 4, 5, 63, 64, 65, 130] { for &np in &[1usize, 63, 64, 65, 128, 129] { for tk in 0..3u32 {
+        let pre = |k: usize| -> u32 { match pk { 0 => (k as u32).wrapping_mul(0x9E37_79B1) ^ 0x8000_0000, 1 => 1000 + (k as u32 * 7) % 200, 2 => 40 + (k / 9) as u32, _ => 4_000_000_000 + (k % 3) as u32 } };
+        let tail = |k: usize| -> u32 { match tk { 0 => if k % 2 == 0 { u32::MAX } else { 0 }, 1 => 77, _ => pre(split + k) } };
+        let vals: Vec<u32> = (0..split).map(|k| pre(k)).chain((0..np).map(|k| tail(k))).collect();
+        uintvector_mixed_case(&mut cx, &vals, split);
+    } } } }
+    let nh = if th { 40000 } else { 3000 };
     for i in 0..nh {
-        let ops = gen_history(&mut rng);
+        let ops = gen_history(&mut rng, i % 2 == 1);
         if i < 2 { cx.sum.sample(json!({"min0_history": ops.iter().take(8).map(|(o, a)| json!([o, a.iter().take(6).collect::<Vec<_>>()])).collect::<Vec<_>>()})); }
         min0_history(&mut cx, &ops, false);
     }
@@ -438,10 +562,11 @@ pub fn run(args: &Args) {
             4 => (rng.below(1000) as u32) << (rng.below(22) as u32),
             5 => { if run_left == 0 { run_left = 1 + rng.below(40); run_val = if rng.chance(1, 4) { rng.next() as u32 } else { rng.below(5) as u32 }; } run_left -= 1; run_val }
             _ => u32::MAX - rng.below(3) as u32 }).collect();
-        uintvector_case(&mut cx, &uv, false, false, &mut rng);
-        uintvector_case(&mut cx, &uv, true, false, &mut rng);
+        uintvector_case(&mut cx, &uv, false, false, &mut rng, 0);
+        uintvector_case(&mut cx, &uv, true, false, &mut rng, (i % 4) as u32);
         { let sp = *rng.pick(&[0usize, 1, 2, 63, 64, 65, n / 2, n.saturating_sub(1), n]); uintvector_mixed_case(&mut cx, &uv, sp); }
         // ZipIntVec
+        { let ops = hist::gen_zip_history(&mut rng); if i < 2 { cx.sum.sample(json!({"zip_history": ops.iter().take(8).map(|(o, a)| json!([hist::ZIP_OPS[*o as usize], a.iter().take(4).collect::<Vec<_>>()])).collect::<Vec<_>>()})); } hist::zip_history(&mut cx, &ops); }
         let zn = *rng.pick(&[1usize, 1, 2, 3, 10, 63, 64, 65, 130]);
         let sh = *rng.pick(&[0u32, 1, 8, 20, 40, 57, 58, 59, 63]);
         let zbase = match rng.below(4) { 0 => 0u64, 1 => 1000, 2 => u64::MAX - if sh >= 63 { u64::MAX >> 1 } else { (1u64 << sh) - 1 }, _ => rng.next() >> 1 };
@@ -459,6 +584,12 @@ pub fn run(args: &Args) {
         let tu: Vec<i64> = tv.iter().map(|&x| (x as i32 as u32) as i64).collect();
         min0_typed_case(&mut cx, &tu, false, false);
     }
+    // sizes across 2^16 / 2^20 and the 64 KiB marks, described by (container, kind, n, seed); last, so that a defect that small
+    // histories show as well is reported (and shrunk) on one of those
+    hist::gen_big(&mut cx, &mut rng);
+    if th { for _ in 0..4 { hist::gen_big(&mut cx, &mut rng); } }
+    { let ok = zipora::memory::SecureMemoryPool::new(zipora::memory::SecurePoolConfig::small_secure()).ok().and_then(|p| std::sync::Arc::try_unwrap(p).ok()).is_some();
+      cx.sum.dist_max("sorted_with_pool_constructible", ok as u64); }
     cx.sum.dist_max("coq_cases", cx.shards.len() as u64);
     cx.sum.dist_max("coq_cases_min0", cx.n_min0_coq as u64);
     cx.sum.dist_max("coq_cases_sorted", cx.n_sorted_coq as u64);
